@@ -15,6 +15,7 @@ import WpModel.Model.RasterEmbed
 import WpModel.Model.ReplacedDoc
 import WpModel.Lemmas.ReplacedDoc
 import WpModel.Lemmas.ReplacedRtl
+import WpModel.Gen.ImageInherited
 import WpModel.Model.CanvasBg
 import WpModel.Lemmas.ImageId
 
@@ -235,6 +236,71 @@ theorem doc_image_default_size (c : CssBox) (cb : Cb) (cbh : Len) (cx py pw ph r
 example : ∃ b x y, docImage false ⟨none, none, none, none, none, none, some (.px 3), none, none, none, .px 1, .pct 10, 2, 0⟩
     ⟨200, false⟩ none 0 0 8 4 2 (8 / 4) = .ok (b, x, y) ∧ b.width = some (8 / 2) ∧ b.height = some (4 / 2) :=
   doc_image_default_size _ _ _ _ _ 8 4 2 (by norm_num) (by norm_num) (by norm_num) rfl rfl rfl rfl rfl rfl
+
+/-- The sizing part of `block_replaced_box_layout` for an image whose intrinsic width, height and (consistent)
+ratio are known, both sizes auto and no min/max violated: the used size is the intrinsic size, the horizontal
+margins are settled by the block width equation. -/
+theorem block_sizing_intrinsic (i : Intr) (cb : Cb) (b : RBox) (iw ih : Rat)
+    (hw : b.width = none) (hh : b.height = none)
+    (hiw : i.w = some iw) (hih : i.h = some ih) (hr : i.ratio = some (iw / ih))
+    (piw : 0 < iw) (pih : 0 < ih)
+    (hvw : viol iw b.minWidth (capMax b.minWidth b.maxWidth) = .ok)
+    (hvh : viol ih b.minHeight (capMax b.minHeight b.maxHeight) = .ok) :
+    ∃ b', blockReplacedSizing true i cb b = .ok b' ∧ b'.width = some iw ∧ b'.height = some ih ∧
+      (∃ ml mr, b'.marginLeft = some ml ∧ b'.marginRight = some mr) ∧ b'.marginTop = b.marginTop := by
+  have hr0 : iw / ih ≠ 0 := div_ne_zero (ne_of_gt piw) (ne_of_gt pih)
+  have hquot : iw / (iw / ih) = ih := by field_simp
+  rcases b with ⟨bw, bh, bml, bmr, bmt, bmb, pl, pr, bl, br, mnw, mxw, mnh, mxh, px, col⟩
+  simp only at hw hh hvw hvh
+  subst hw; subst hh
+  have e1 := rbwCore_point1 i cb ⟨none, none, bml, bmr, bmt, bmb, pl, pr, bl, br, mnw, mxw, mnh, mxh, px, col⟩ iw rfl rfl hiw
+  obtain ⟨ml1, mr1, px1, e2⟩ := blwCore_known_width
+    ⟨some iw, none, bml, bmr, bmt, bmb, pl, pr, bl, br, mnw, mxw, mnh, mxh, px, col⟩ cb iw rfl
+  have e3 := rbhCore_ratio i ⟨some iw, none, some ml1, some mr1, bmt, bmb, pl, pr, bl, br, mnw, mxw, mnh, mxh, px1, col⟩
+    iw (iw / ih) rfl rfl hr hr0
+  rw [hquot] at e3
+  have e4 : minMaxAutoReplaced ⟨some iw, some ih, some ml1, some mr1, bmt, bmb, pl, pr, bl, br, mnw, mxw, mnh, mxh, px1, col⟩ =
+      .ok ⟨some iw, some ih, some ml1, some mr1, bmt, bmb, pl, pr, bl, br, mnw, mxw, mnh, mxh, px1, col⟩ := by
+    simp [minMaxAutoReplaced, num, bind, Except.bind, mmarCore_no_violation iw ih _ _ _ _ hvw hvh, pure, Except.pure]
+  obtain ⟨ml2, mr2, px2, e5⟩ := blwCore_known_width
+    ⟨some iw, some ih, bml, bmr, bmt, bmb, pl, pr, bl, br, mnw, mxw, mnh, mxh, px1, col⟩ cb iw rfl
+  simp only at e1 e2 e3 e5
+  refine ⟨⟨some iw, some ih, some ml2, some mr2, bmt, bmb, pl, pr, bl, br, mnw, mxw, mnh, mxh, px2, col⟩, ?_, rfl, rfl,
+    ⟨ml2, mr2, rfl, rfl⟩, rfl⟩
+  simp only [blockReplacedSizing, if_true, brwCore, bind, Except.bind, pure, Except.pure, e1, e2, e3, e4, e5]
+
+/-- **Intrinsic size divided by `image-resolution` by default — for a block-level image too**: a
+`display: block` `<img>` showing a raster image of `pw × ph` pixels, every sizing property at its initial value,
+in any containing block (ltr or rtl) and with any margins, paddings and borders, is laid out
+`pw / res × ph / res` by `block_level_layout` → `block_replaced_box_layout` (no floats around). -/
+theorem doc_block_image_default_size (c : CssBox) (cb : Cb) (cbh : Len) (cx py pw ph res : Rat)
+    (hpw : 0 < pw) (hph : 0 < ph) (hres : 0 < res)
+    (hw : c.width = none) (hh : c.height = none) (hminw : c.minWidth = none) (hminh : c.minHeight = none)
+    (hmaxw : c.maxWidth = none) (hmaxh : c.maxHeight = none) :
+    ∃ b x y, docImage true c cb cbh cx py pw ph res (pw / ph) = .ok (b, x, y) ∧
+      b.width = some (pw / res) ∧ b.height = some (ph / res) := by
+  obtain ⟨r1, r2, r3, r4, r5, r6⟩ := resolve_auto c cb.width cbh cx hw hh hminw hminh hmaxw hmaxh
+  have hres0 : res ≠ 0 := ne_of_gt hres
+  have hratio : pw / ph = (pw / res) / (ph / res) := by field_simp
+  set b0 := resolvePercentages c cb.width cbh cx with hb0
+  set b1 : RBox := { b0 with marginTop := some (b0.marginTop.getD 0), marginBottom := some (b0.marginBottom.getD 0) } with hb1
+  obtain ⟨b', hb', hw', hh', ⟨ml, mr, hml, hmr⟩, hmt⟩ := block_sizing_intrinsic
+    ⟨some (pw / res), some (ph / res), some (pw / ph)⟩ cb b1
+    (pw / res) (ph / res) (by simp [hb1, r1]) (by simp [hb1, r2]) rfl rfl (by rw [hratio])
+    (div_pos hpw hres) (div_pos hph hres)
+    (by simp [hb1, r3, r5, viol, capMax, gtMax, not_lt.mpr (le_of_lt (div_pos hpw hres))])
+    (by simp [hb1, r4, r6, viol, capMax, gtMax, not_lt.mpr (le_of_lt (div_pos hph hres))])
+  have hmt' : b'.marginTop = some (b0.marginTop.getD 0) := by rw [hmt]
+  obtain ⟨x, y, hxy⟩ : ∃ x y, avoidCollisionsNoFloats b' cx cb py = .ok (x, y) := by
+    simp [avoidCollisionsNoFloats, num, hw', hml, hmr, hmt', bind, Except.bind, pure, Except.pure]
+  refine ⟨{ b' with positionX := x }, x, y, ?_, hw', hh'⟩
+  simp [docImage, rasterIntrinsic, pyDiv, hres0, bind, Except.bind, pure, Except.pure, docImageI, hw, hh,
+    blockReplacedBoxLayout, ← hb0, ← hb1, hb', hxy]
+
+/-- Non-vacuity: a block `<img>` of 8 × 4 px at 2dppx with `margin-left: auto` in a 200px rtl containing block. -/
+example : (docImage true ⟨none, none, none, none, none, none, none, some (.px 3), none, none, .px 1, .pct 10, 2, 0⟩
+    ⟨200, true⟩ none 0 0 8 4 2 (8 / 4)).toOption.map (fun r => (r.1.width, r.1.height)) = some (some 4, some 2) := by
+  decide +kernel
 
 /-- **No declared `image-resolution` can make the intrinsic size divide by zero or come out negative**
 (repair d011d54; finding `image-resolution-zero-division`, filed under C07): the validator keeps a
@@ -897,6 +963,19 @@ example : (embed ⟨.CMYK, false, .jpeg, true, false, true⟩ ⟨false, false⟩
     some (⟨.CMYK, true, false, true⟩, ⟨"/DeviceCMYK", "/DCTDecode", false, false, true⟩) := by decide +kernel
 
 end Embed
+
+/-! ## C13.image_properties_inherited — the regenerated `INHERITED` table -/
+
+/-- Each of the three image properties of css-images-3 §6 (`image-orientation`, `image-rendering`,
+`image-resolution`) is in the regenerated `INHERITED` set, as the specification defines them (full strength
+since repair 8f3706e; `image-orientation` was the missing one — finding `image-orientation-not-inherited`,
+fixed): an image below an element that sets one of them is sized, rotated and sampled with that value. -/
+theorem image_properties_inherited_table :
+    (∀ p ∈ Gen.imagePropsInherited, p.2 = true) ∧
+    Gen.imagePropsInherited.map Prod.fst = ["image_orientation", "image_rendering", "image_resolution"] := by
+  constructor
+  · decide
+  · rfl
 
 /-! ## C13.canvas_background — `layout_backgrounds`: the propagated background keeps its own computed values -/
 
